@@ -306,7 +306,12 @@ async fn handle_stream_append(
         let mut bytes_written = 0;
 
         while let Some(frame) = body.frame().await {
-            if let Ok(data) = frame?.into_data() {
+            // a request body that cannot be read (e.g. broken chunked framing) is the client's error
+            let frame = match frame {
+                Ok(frame) => frame,
+                Err(e) => return response_400(format!("Error reading the request body: {}", e)),
+            };
+            if let Ok(data) = frame.into_data() {
                 writer.write_all(&data).await?;
                 bytes_written += data.len();
             }
@@ -368,7 +373,12 @@ async fn handle_cas_post(store: &mut Store, mut body: hyper::body::Incoming) -> 
         let mut bytes_written = 0;
 
         while let Some(frame) = body.frame().await {
-            if let Ok(data) = frame?.into_data() {
+            // a request body that cannot be read (e.g. broken chunked framing) is the client's error
+            let frame = match frame {
+                Ok(frame) => frame,
+                Err(e) => return response_400(format!("Error reading the request body: {}", e)),
+            };
+            if let Ok(data) = frame.into_data() {
                 writer.write_all(&data).await?;
                 bytes_written += data.len();
             }
@@ -543,7 +553,10 @@ async fn handle_head_get(
 }
 
 async fn handle_import(store: &mut Store, body: hyper::body::Incoming) -> HTTPResult {
-    let bytes = body.collect().await?.to_bytes();
+    let bytes = match body.collect().await {
+        Ok(collected) => collected.to_bytes(),
+        Err(e) => return response_400(format!("Error reading the request body: {}", e)),
+    };
     let frame: Frame = match serde_json::from_slice(&bytes) {
         Ok(frame) => frame,
         Err(e) => return response_400(format!("Invalid frame JSON: {}", e)),
